@@ -182,3 +182,7 @@ def run(ctx):
     n = 480 if ctx.tier == "quick" else 8000
     stream.run_stream(ctx, "dtype", "harness.props.c20", "gen_cases", n, per_chunk=30,
                       canon_kw=dict(drop_zero=True))
+
+
+def replay(ctx, payload):
+    return stream.replay(ctx, payload, canon_kw=dict(drop_zero=True))
